@@ -634,7 +634,7 @@ func (e *Exec) havocLoop(st *State, body ast.Node, extra []ast.Node, spec *LoopS
 		calleeKeys = e.calleeKeysOf(body, extra)
 	}
 	for _, k := range ks {
-		if _, ok := e.keySort[k]; !ok {
+		if !e.ensureKeySort(k) {
 			if h.Unknown == nil {
 				h.Unknown = map[string]bool{}
 			}
@@ -678,6 +678,7 @@ func (e *Exec) havocLoop(st *State, body ast.Node, extra []ast.Node, spec *LoopS
 		}
 		h.Heap[k] = e.Ctx.Fresh("lh", e.keySort[k])
 	}
+	e.havocMemo(h)
 	na := e.Ctx.Fresh("alloc", SInt)
 	e.Ctx.Assume(h.PC, Ge(na, st.Alloc))
 	h.Alloc = na
@@ -705,7 +706,7 @@ func (e *Exec) loopFrame(head, end *State, ord int, given map[string][]designato
 				whole = true
 			}
 		}
-		if whole {
+		if whole || e.P.Memo[k] != nil {
 			continue
 		}
 		if end.HavocAll && !head.HavocAll {
@@ -938,16 +939,30 @@ func (e *Exec) execRangeMap(st *State, s *ast.RangeStmt, label string, mt *types
 	ks := e.S.SortOf(mt.Key())
 	ord, spec := e.nextLoop(s)
 	visObj := e.newPseudo("vis", nil)
+	cntObj := e.newPseudo("iter", types.Typ[types.Int])
 	define := s.Tok == token.DEFINE
 	st.Vars[visObj] = e.S.ConstArray(ks, SBool, False)
-	e.vis = append(e.vis, visInfo{ord: ord, vis: visObj, ksort: ks})
+	st.Vars[cntObj] = Int(0)
+	len0 := e.Ctx.Define("maplen0", Ite(Eq(m, Int(0)), Int(0), Select(e.heapGet(st, mk.ln), m)))
+	e.vis = append(e.vis, visInfo{ord: ord, vis: visObj, ksort: ks, cnt: cntObj})
 	defer func() { e.vis = e.vis[:len(e.vis)-1] }()
 	e.checkInvariants(st, ord, spec, "inv-init", s.Pos())
 	head := e.havocLoop(st, s.Body, nil, spec)
 	given := e.lastGiven
 	vis := e.Ctx.Fresh("vis", ArraySort(ks, SBool))
 	head.Vars[visObj] = vis
+	iter := e.Ctx.Fresh("iter", SInt)
+	head.Vars[cntObj] = iter
+	e.assume(head, Ge(iter, Int(0)))
 	e.assumeInvariants(head, spec)
+	// a map that the loop does not modify is visited exactly len(m) times
+	mapStable := true
+	{
+		mod := e.modKeysOf(s.Body, nil)
+		if mod["*"] || mod[mk.dom] || mod[mk.ln] {
+			mapStable = false
+		}
+	}
 	dom := func(h *State) Term { return Select(e.heapGet(h, mk.dom), m) }
 	// next key: some key of the current domain that was not visited
 	k := e.Ctx.Fresh("rk", ks)
@@ -955,6 +970,10 @@ func (e *Exec) execRangeMap(st *State, s *ast.RangeStmt, label string, mt *types
 	kv := "k"
 	e.Ctx.Assume(head.PC, Implies(Not(hasNext), Term{fmt.Sprintf("(forall ((%s %s)) (! (=> (select %s %s) (select %s %s)) :pattern ((select %s %s))))", kv, ks, dom(head).S, kv, vis.S, kv, vis.S, kv), SBool}))
 	e.Ctx.Assume(head.PC, Implies(hasNext, And(Not(Eq(m, Int(0))), Select(dom(head), k), Not(Select(vis, k)))))
+	if mapStable {
+		e.Ctx.Assume(head.PC, And(Implies(hasNext, Lt(iter, len0)), Implies(Not(hasNext), Eq(iter, len0))))
+		e.Assumed["range over a map that the loop body does not modify runs exactly len(map) iterations"] = true
+	}
 	f := e.fr()
 	savedB, savedC := f.breaks[""], f.conts[""]
 	var savedLB, savedLC []*State
@@ -972,6 +991,7 @@ func (e *Exec) execRangeMap(st *State, s *ast.RangeStmt, label string, mt *types
 		e.bindRangeVar(body, s.Value, define, v)
 	}
 	body.Vars[visObj] = Store(vis, k, True)
+	body.Vars[cntObj] = Add(iter, Int(1))
 	e.canary(body, fmt.Sprintf("loop%d-body", ord), s.Body.Pos())
 	out := e.execBlock(body, s.Body.List)
 	conts := append([]*State{out}, f.conts[""]...)
